@@ -403,13 +403,14 @@ __CPROVER_ensures((xvu_g_len < XCM_ATTR_NAME_MAX && XVU_SEND_OK && xvu_rx.full &
 /* ---- xcmc_attr_get_all.  The callback (a function pointer) is the contract-carrying xvu_attr_cb: its PRECONDITION is what a
  * callback written against xcmc.h relies on -- the name is a C string inside name[64], the value pointer is good for attr_len
  * bytes and attr_len is at most the 512 bytes of the protocol field. */
+#ifdef XVU_CB_NAME_CHECK
+#define XVU_CB_NAME_OK(attr_name) XVU_CSTR64(attr_name)
+#else   /* (variant above64 of job xcmc_attr_get_all: the loop must not be reached at all; the 64 reads at a symbolic entry index are left out) */
+#define XVU_CB_NAME_OK(attr_name) 1
+#endif
 void xvu_attr_cb(const char *attr_name, enum xcm_attr_type type, void *attr_value, size_t attr_len, void *cb_data)
 /* PO[C14] xcmc_attr_get_all.callback_gets_a_terminated_name_and_a_bounded_value */
-#ifndef XVU_CB_NAME_CHECK
-__CPROVER_requires(attr_len <= CTL_ATTR_VALUE_MAX && __CPROVER_r_ok(attr_value, attr_len == 0 ? 1 : attr_len) && __CPROVER_r_ok(attr_name, XCM_ATTR_NAME_MAX))
-#else
-__CPROVER_requires(attr_len <= CTL_ATTR_VALUE_MAX && __CPROVER_r_ok(attr_value, attr_len == 0 ? 1 : attr_len) && __CPROVER_r_ok(attr_name, XCM_ATTR_NAME_MAX) && XVU_CSTR64(attr_name))
-#endif
+__CPROVER_requires(attr_len <= CTL_ATTR_VALUE_MAX && __CPROVER_r_ok(attr_value, attr_len == 0 ? 1 : attr_len) && __CPROVER_r_ok(attr_name, XCM_ATTR_NAME_MAX) && XVU_CB_NAME_OK(attr_name))
 __CPROVER_assigns(xvu_cb)
 __CPROVER_ensures(xvu_cb.calls == __CPROVER_old(xvu_cb.calls) + 1)
 ;
